@@ -10,8 +10,8 @@ MAGS = {'zero': None, 'transparent': (-40.0, -30.0), 'mixed': (-27.0, -20.0), 's
 @st.composite
 def table(draw, nwn, mag=None, tspan=(80.0, 3500.0)):
     """table spec for one molecule on a shared wavenumber grid of nwn points"""
-    nT = draw(st.integers(1, 4))
-    nP = draw(st.integers(1, 4))
+    nT = draw(ints(1, 4))
+    nP = draw(ints(1, 4))
     T0 = draw(fl(tspan[0], 1500.0))
     dT = draw(st.lists(fl(50.0, 1200.0), min_size=nT - 1, max_size=nT - 1))
     lP0 = draw(fl(-3.0, 4.0))
@@ -35,7 +35,7 @@ def temperature(draw, nlayers, allow=('iso', 'ctrl')):
     kind = draw(st.sampled_from(list(allow)))
     if kind == 'iso':
         return {'kind': 'iso', 'T': draw(fl(100.0, 3000.0))}
-    k = draw(st.integers(2, 5))
+    k = draw(ints(2, 5))
     return {'kind': 'ctrl', 'T': draw(st.lists(fl(100.0, 3000.0), min_size=k, max_size=k))}
 
 
@@ -44,10 +44,10 @@ def world(draw, layers=(2, 40), nwn=(1, 12), max_active=3, mags=None, temps=('ct
           extras=('CIA', 'Rayleigh', 'SimpleClouds'), min_active=1):
     combos = [[]] + [[e] for e in extras] + [list(extras[:2]), list(extras)] if extras else [[]]
     ex = sorted(draw(st.sampled_from(combos)))
-    nl = draw(st.integers(*layers))
-    nw = draw(st.integers(*nwn))
-    nact = draw(st.integers(min_active, max_active))
-    mols = draw(st.permutations(MOLS))[:nact]
+    nl = draw(ints(*layers))
+    nw = draw(ints(*nwn))
+    nact = draw(ints(min_active, max_active))
+    mols = draw(perm(MOLS))[:nact]
     gases = []
     for m in mols:
         gases.append({'mol': m, 'logmix': draw(fl(-6.5, -0.7)),
@@ -76,3 +76,21 @@ def world(draw, layers=(2, 40), nwn=(1, 12), max_active=3, mags=None, temps=('ct
         'lpcloud': draw(fl(-1.5, 1.5)),           # cloud top as fraction of the log-pressure range
     }
     return w
+
+
+def ints(a, b):
+    """integers(a, b) drawn as a + integers(0, b - a): see perm() for why ranges never start away from zero"""
+    return st.integers(0, b - a).map(lambda v, a=a: v + a)
+
+
+@st.composite
+def perm(draw, xs):
+    """a permutation of xs by Fisher-Yates with offsets drawn from integers(0, k).  Used instead of st.permutations:
+    under hypothesis' fuzz_one_input (the atheris campaigns) a draw from integers(a, a+1) with a != 0 never succeeds in
+    Hypothesis 6.168, and st.permutations ends with exactly such a draw, so no case containing it could ever be built."""
+    xs = list(xs)
+    n = len(xs)
+    for i in range(n - 1):
+        j = i + draw(st.integers(0, n - 1 - i))
+        xs[i], xs[j] = xs[j], xs[i]
+    return xs
